@@ -27,6 +27,7 @@ func runC09(c *Ctx) {
 	c09R3(c)
 	indexResolution(c, "R4")
 	memberResolutionOrder(c, "R8")
+	c.shared("R10", "C02/R4", "assigning to $ (or growing it) in a pattern rule changes the document: for an array root $ is the element's own cell, not a copy", keyHas("array-root-per-element"), c02R4)
 	if es := c.P.LangFunc("(*Evaluator).evalStatement"); es != nil {
 		c.shared("R9", "C07/R7", "the loop variable of for-in receives a copy of the element's value in a cell of its own: assigning to it (or reusing its name later) does not change the array", keyHas("for-in ValueArray", "for-in ValueObj"), func(s *Ctx) { c07ForIn(s, es) })
 	}
